@@ -29,6 +29,8 @@ CLAIMED["C15"] = ("dispatch monitor: the two registration tables are read from t
                   "runtime monitoring: exhaustive enumeration of the dispatch tables x class grid with a dense-reference oracle per call")
 CLAIMED["C14"] = ("fidelity monitor: clone / detach / to / type / double / float / cpu / evaluate_kernel / representation_tree()(*representation()) on every class under source x target x default dtype in {f32, f64}^3; class, public flags, non-tensor arguments and integer / boolean tensors must be preserved, the dense value (to_dense and the denotation of the result's constructor arguments) must equal the original cast to the target dtype, clones share no storage, requires_grad_ reaches exactly the floating tensors, and every tensor returned by to_dense / diagonal / matmul / indexing / sums keeps the operator's dtype when the default dtype differs",
                   "runtime monitoring: reference-model monitor on converted / rebuilt operators plus dtype and storage observers")
+CLAIMED["C08"] = ("hook-trace invariant monitor: linear_cg driven directly on SPD matrices with prescribed spectra, preconditioners, column kinds and limits; the cg.begin / cg.iter / cg.end events (per-iteration iterate, residual, masks, alpha, beta) are checked against A-norm monotonicity and the classical bound down to the solver's accuracy floor, tolerance-on-no-warning, zero columns, frozen columns, scaling, preconditioner independence of the limit, structure / Ritz values / exact quadrature identity of the returned tridiagonals, raising on NaN closures and inconsistent limits, and the logical step bound",
+                  "runtime monitoring: invariants over per-iteration hook traces of the real CG loop plus metamorphic pairs")
 PENDING = {}
 def main():
     hooks_commits = []
